@@ -6,7 +6,7 @@ from .. import timer_common
 class Prop:
     id = "C07"
     lean_module = "MuduoVerif.Props.C07"
-    gen_engines = ["Timer"]
+    gen_engines = ["Timer", "TimerSkel"]
     drivers = ["timer"]
     technique = ("Lean 4 invariant proofs over the timer-engine model with an explicit heap of Timer cells (use-after-free is an "
                  "observable event) + T1 + differential run with a schedule-controlled foreign addTimer (point "
@@ -37,7 +37,7 @@ class Prop:
             "fires and frees the timer; dbg, ASan+UBSan (and NDEBUG in the thorough tier) builds")
     trusted_base = [
         "Lean 4.33.0 kernel; axioms allowed: propext, Classical.choice, Quot.sound",
-        "vlib/extract.py + vlib/gen/timer.py (see C06)",
+        "vlib/extract.py + vlib/gen/timer.py + vlib/gen/timerskel.py (see C06)",
         "hand-written Model/Timer.lean, tied by the differential run (harness/timer_drv.cc vs lean/Driver/TimerDrv.lean)",
         "AddressSanitizer for use-after-free on the implementation side; the harness' two-semaphore schedule control at the named point",
         "std::set, std::function, operator new/delete behave as documented",
